@@ -100,6 +100,13 @@ CLAIMED = {
          'row counts of simulated stationary and periodic sources.',
          'Lean kernel + Mathlib; partial: FITPACK integration/inversion measured (norm 2e-4, ε_t ≤ 2e-3, ε_E ≤ 6e-3; observed 2.4e-4 / 1.3e-4); numpy.random.poisson/uniform contracts; '
          'known finding: xBinarySource (truncated times, no GTI filter, wrong auxiliary variable).'),
+ 'C12': ('proof', 'Lean 4 kernel evaluation (decide +kernel) of a name-composition model over the CALDB listing regenerated from the tree, model tied by exhaustive comparison; numerical relations by exhaustive loading',
+         'no_orphans (every shipped file under the six loader folders is composed by some IRF name × DU × type × flags), flavour_faithful (markers and folder exactly as requested), '
+         'config_injective (accepted compositions pairwise distinct), plain_sets_complete, simple_type/gray_type/simple_intent_refused, legacy_wellformed — on listing, names and constants '
+         'regenerated on every run; the model equals irf_file_name on the whole configuration space (exhaustive); every name × DU × flags is loaded and checked (flavour, weighting scheme, '
+         'mrf = arf × modf at the tabulated energies, aeff > 0, 0 ≤ modf ≤ 1, rmf rows, channel bounds, on-axis vignetting, EEF), load_irf_set members.',
+         'Lean kernel (core only); generator of the tables (witness tables untrusted, kernel-checked); partial: numerical relations are data facts decided by enumeration, quick tier loads DU 1 + a seeded third. '
+         'gray_tow and chrgparams files have no loader flag and are outside the six kinds (recorded).'),
 }
 NOT_YET = 'check not built yet in this round (work in progress; see DESIGN.md section 7 for the planned model and theorems)'
 
